@@ -353,7 +353,34 @@ pub fn gen_replicas(prop: &str, r: &mut Prng, seed: u64, run: u64, thorough: boo
         }
         replicas.push(s);
     }
-    let sub = if matches!(prop, "C01" | "C02" | "C03") && r.chance(1, 2) { draw_sub(r, &facts, 0, false) } else { None };
+    let mut sub = if matches!(prop, "C01" | "C02" | "C03") && r.chance(1, 2) { draw_sub(r, &facts, 0, false) } else { None };
+    if prop == "C02" && sub.is_some() && r.chance(1, 3) {
+        // a request that retains modifier and phenotype terms alike, with records annotated to both kinds of term
+        if let Some(d) = crate::model::defaults(&facts) {
+            if !d.modifier.is_empty() {
+                let anc = crate::model::closure(&facts);
+                let m = *r.pick(&d.modifier);
+                let below: Vec<u32> = facts.terms.iter().map(|t| t.id).filter(|i| *i == 118 || anc[i].contains(&118)).collect();
+                let p = *r.pick(&below);
+                for k in crate::facts::KINDS {
+                    if !facts.recs(k).is_empty() {
+                        let i = r.usize_below(facts.recs(k).len());
+                        let rec = &mut facts.recs_mut(k)[i];
+                        rec.terms.push(m);
+                        rec.terms.push(p);
+                    }
+                }
+                facts.normalise();
+                if let Some(sb) = &mut sub {
+                    sb.root = 1;
+                    sb.leaves = vec![m, p];
+                    if r.chance(1, 2) {
+                        sb.leaves.reverse();
+                    }
+                }
+            }
+        }
+    }
     // C10 thorough: on a sample of runs every one of the 10^7 ids of the id space is looked up
     let mode = if prop == "C10" && thorough && r.chance(1, 2000) { "full-sweep".to_string() } else { String::new() };
     Scenario { prop: prop.to_string(), seed, run, mode, facts, replicas, sub, drop_terms, aux_seed: r.next_u64(), ..Default::default() }
